@@ -41,6 +41,7 @@ CONSTANTS
                 \*   "message" = one initial message held by the defaults is the stored value of every new instance
                 \*   (onoffpb, lightpb, ... as the code has it: harmless as long as nobody writes it)
   Mutant        \* "none", or a seeded deviation the model must catch: "getNoRLock" | "collectNoLock" | "hasNoLock"
+                \*   | "optionNormalisedInPlace" (the library normalises the CALLER's update mask when the option is applied)
 
 All  == 1..(2 * N)
 Main == 1..N
@@ -140,6 +141,16 @@ IGet(p, i) == << RdP(RLock(IC(i, ".mu")), {IC(i, ".byId")}), RUnlock(IC(i, ".mu"
 ISet(p, i) == WriteVia(p, IC(i, ".mu"), IC(i, ".pubMu"), IC(i, ".byId"), IC(i, ".bus"))
 InitialOf(i) == IF DefaultShared = "message" THEN "pkg.m0" ELSE "m0." \o ToString(i)
 
+\* ---- location kind "caller-owned option value shared between calls" ---------------------------------------------
+\* A write option (resource.WithUpdateMask(mask), kept by pointer in WriteRequest.UpdateMask, opt.go) or a read option
+\* (WithReadMask) is built once by the caller and handed to many calls, by many goroutines, on one or several
+\* resources.  No lock of any resource covers it: the only discipline that works is that the library READS it and
+\* never writes it (opt.go fieldUpdater -> masks.WithUpdateMask stores the pointer, update.go Validate/Merge read the
+\* paths and normalise a COPY).  The seeded deviation normalises the caller's mask in place when the option is applied.
+OptUse(loc) == IF Mutant = "optionNormalisedInPlace" THEN << Acc(Nop, {loc}, {loc}) >> ELSE << Acc(Nop, {loc}, {}) >>
+OSet(p, i) == OptUse("opt.wmask") \o ISet(p, i)
+OGet(p, i) == << Acc(Nop, {"opt.rmask"}, {}) >> \o IGet(p, i)
+
 \* internal/minibus/bus.go:58 Listen: build the listener, start the goroutine that stops it, append under listenerM
 ListenHead(p) == << Acc(Nop, {}, {L(p, ".ch")}), Spawn(N + p),
                     [Acc(Lock("b.lm"), {"b.listeners"}, {"b.listeners"}) EXCEPT !.regme = TRUE], Unlock("b.lm") >>
@@ -202,6 +213,7 @@ Steps(op, p) ==
     [] op = "StreamServer" -> StreamServer(p) [] op = "StreamClient" -> StreamClient(p) [] op = "StreamClientCancel" -> StreamClientCancel(p)
     [] op = "IGen1" -> IGen(p, 1) [] op = "IGen2" -> IGen(p, 2) [] op = "IGet1" -> IGet(p, 1) [] op = "IGet2" -> IGet(p, 2)
     [] op = "ISet1" -> ISet(p, 1) [] op = "ISet2" -> ISet(p, 2)
+    [] op = "OSet1" -> OSet(p, 1) [] op = "OSet2" -> OSet(p, 2) [] op = "OGet1" -> OGet(p, 1) [] op = "OGet2" -> OGet(p, 2)
     [] op = "GroupMember" -> GroupMember(p) [] op = "GroupAll" -> GroupCaller(2) [] op = "GroupFast" -> GroupCaller(1)
 HelperSteps(op, p) == IF op \in {"BListen", "BCancel"} THEN ListenHelper(p) ELSE <<>>
 
@@ -210,6 +222,7 @@ Alphabet == CASE Family = "val"  -> {"VGet", "VSet", "VPull"}
               [] Family = "bus"  -> {"BListen", "BCancel", "BSend"}
               [] Family = "rtr"  -> {"RAdd", "RRemove", "RHas", "RGet", "RMake"}
               [] Family = "dflt" -> {"IGen1", "IGen2", "IGet1", "IGet2", "ISet1", "ISet2"}
+              [] Family = "opt"  -> {"OSet1", "OSet2", "OGet1", "OGet2"}
               [] OTHER -> {}
 Scenarios == CASE Family = "stream" -> { <<"StreamClient", "StreamServer">>, <<"StreamClientCancel", "StreamServer">> }
                [] Family = "group"  -> { <<"GroupAll", "GroupMember", "GroupMember">>, <<"GroupFast", "GroupMember", "GroupMember">> }
@@ -318,4 +331,5 @@ OnlyRngRaces == \A r \in races : r[1] \in RngLocs
 OnlyStreamRaces == \A r \in races : r[1] \in StreamLocs
 OnlyMessageRaces == \A r \in races : r[1] \in {"m0", "pkg.m0", "m0.1", "m0.2"} \cup { M(p) : p \in Main }
 OnlyPkgRaces == \A r \in races : r[1] \in {"pkg.rng"}
+OnlyOptionRaces == \A r \in races : r[1] \in {"opt.wmask"}
 =============================================================================
